@@ -483,6 +483,19 @@ pub fn vary_transport(rng: &mut Rng, case: &mut Case) {
     }
 }
 
+/// COM_FIELD_LIST argument: table name, NUL, optional field wildcard (any LIKE pattern; also none,
+/// no NUL at all, non-ASCII).
+pub fn field_list_arg(rng: &mut Rng) -> Vec<u8> {
+    let table: &[u8] = *rng.pick(&[&b"t"[..], b"t1", b"accounts", b"", "täble".as_bytes()]);
+    let mut v = table.to_vec();
+    if rng.chance(1, 8) {
+        return v;
+    }
+    v.push(0);
+    v.extend_from_slice(*rng.pick(&[&b""[..], b"", b"%", b"id%", b"x", b"not%", b"_", b"a_b%", b"%%", b"N%", b"\\%", b"id\0"]));
+    v
+}
+
 /// Like `routing_violations` for a connection that ended early with an error: the callbacks seen
 /// must be a prefix of the model's list (each one verbatim), nothing more is demanded.
 pub fn routing_prefix_violations(obs: &Obs, conv: &Conv) -> Vec<(String, String)> {
